@@ -47,3 +47,104 @@ func init() {
 		return out
 	})
 }
+
+// C11, client side: Model/NtsPool.lean recvLoop models the NTS stage of the clients' receive loop
+// with a packet value of its own per datagram (nts.DecodePacket appends to the packet it is given,
+// so the scope of that variable decides whether cookie fields of a refused datagram can reach
+// ProcessResponse with a later one). Exported per client function: where the variable handed to
+// nts.DecodePacket is declared relative to the innermost enclosing for statement of the call
+// ("loop": inside its body, "function": outside of it, "no-loop": the call is not in a loop).
+func init() {
+	registerLocals("core/client", func(files []*ast.File, fset *token.FileSet) []string {
+		var out []string
+		for _, fn := range []struct{ name, tag string }{
+			{"IPClient.measureClockOffsetIP", "IP"},
+			{"SCIONClient.measureClockOffsetSCION", "SCION"},
+		} {
+			fd := findFunc(files, fn.name)
+			if fd == nil || fd.Body == nil {
+				broken("function %s not found (scope of the NTS response packet)", fn.name)
+				continue
+			}
+			// declarations by name
+			decl := map[string][]token.Pos{}
+			ast.Inspect(fd.Body, func(n ast.Node) bool {
+				switch x := n.(type) {
+				case *ast.ValueSpec:
+					for _, id := range x.Names {
+						decl[id.Name] = append(decl[id.Name], id.Pos())
+					}
+				case *ast.AssignStmt:
+					if x.Tok == token.DEFINE {
+						for _, l := range x.Lhs {
+							if id, ok := l.(*ast.Ident); ok {
+								decl[id.Name] = append(decl[id.Name], id.Pos())
+							}
+						}
+					}
+				}
+				return true
+			})
+			var scopes []string
+			var loops []*ast.BlockStmt
+			var walk func(n ast.Node)
+			walk = func(n ast.Node) {
+				ast.Inspect(n, func(m ast.Node) bool {
+					switch x := m.(type) {
+					case *ast.ForStmt:
+						if x.Init != nil {
+							walk(x.Init)
+						}
+						loops = append(loops, x.Body)
+						walk(x.Body)
+						loops = loops[:len(loops)-1]
+						return false
+					case *ast.RangeStmt:
+						loops = append(loops, x.Body)
+						walk(x.Body)
+						loops = loops[:len(loops)-1]
+						return false
+					case *ast.CallExpr:
+						se, ok := x.Fun.(*ast.SelectorExpr)
+						if !ok || se.Sel.Name != "DecodePacket" || len(x.Args) < 1 {
+							return true
+						}
+						if id, ok := se.X.(*ast.Ident); !ok || id.Name != "nts" {
+							return true
+						}
+						u, ok := x.Args[0].(*ast.UnaryExpr)
+						if !ok || u.Op != token.AND {
+							scopes = append(scopes, "other")
+							return true
+						}
+						id, ok := u.X.(*ast.Ident)
+						if !ok {
+							scopes = append(scopes, "other")
+							return true
+						}
+						if len(loops) == 0 {
+							scopes = append(scopes, "no-loop")
+							return true
+						}
+						body := loops[len(loops)-1]
+						sc := "function"
+						for _, p := range decl[id.Name] {
+							if body.Pos() <= p && p < x.Pos() && p <= body.End() {
+								sc = "loop"
+							}
+						}
+						scopes = append(scopes, sc)
+					}
+					return true
+				})
+			}
+			walk(fd.Body)
+			if len(scopes) == 0 {
+				broken("%s: no call nts.DecodePacket(&pkt, …) found", fn.name)
+				continue
+			}
+			out = append(out, fmt.Sprintf("def ntsRespPacketScope%s : String := %s", fn.tag, leanString(strings.Join(scopes, ";"))))
+		}
+		return out
+	})
+}
